@@ -191,9 +191,9 @@ func init() {
 
 	claim("C07", PropertySpec{
 		Engines: []EngineSpec{rules("ED", "ED-1", "ED-2"), all("CHK")},
-		Clause: "The declaration check cannot be by-passed: (CHK) from every call that collects the evaluated arguments of a configured call, every path to a success return passes through a declaration check of the collected list (collector and checker resolved by signature shape; all 14 call sites). And a diagnostic, once produced, reaches the report: (ED-1) the diagnostics list has a single appending writer under the reporting-round test and is otherwise only reset per round; (ED-2) at each of the call sites whose callee may return a diagnostic built in eval / eval/method_evaluator (186 today, closed over return statements and the VTA call graph) the error result is read — not a call statement, not `_`, not a dead value.",
+		Clause: "The declaration check cannot be by-passed: (CHK) from every call that collects the evaluated arguments of a configured call, every path to a success return passes through a declaration check of the collected list (collector and checker resolved by signature shape; all 14 call sites); (CHK-walk) inside the declaration checks, a declared parameter that has a default never ends the walk over the declared parameters: from the has-default edge of every direct test of HasDefault() in a loop of a checker the loop header stays reachable on a path whose branch conditions are consistent as difference constraints (so `i++` followed by the same `len(args) <= i` exit test counts as leaving) — otherwise required parameters after the first optional one go unchecked. And a diagnostic, once produced, reaches the report: (ED-1) the diagnostics list has a single appending writer under the reporting-round test and is otherwise only reset per round; (ED-2) at each of the call sites whose callee may return a diagnostic built in eval / eval/method_evaluator (186 today, closed over return statements and the VTA call graph) the error result is read — not a call statement, not `_`, not a dead value.",
 		NotCovered: "what the declaration check concludes (lookup, overloads, acceptance of types: runtime type sets)",
-	}, propMeta{Technique: "must-pass-through over the SSA CFG from argument collectors to declaration checks (roles by signature shape) + error-flow analysis over go/ssa and the VTA call graph (diagnostic sources closed over return statements; dead-value detection at call sites) + who-may-write rule on the diagnostics field",
+	}, propMeta{Technique: "must-pass-through over the SSA CFG from argument collectors to declaration checks (roles by signature shape) + constraint-feasible reachability of the loop header from the has-default edges of the parameter walk (difference constraints from branch edges, helper summaries and phi edges) + error-flow analysis over go/ssa and the VTA call graph (diagnostic sources closed over return statements; dead-value detection at call sites) + who-may-write rule on the diagnostics field",
 		LevelText: "all call sites returning an error are enumerated; those that can carry a diagnostic are decided exactly (the value is read or it is not).",
 		LevelNote: "callees that can only return nil or lexical errors of package parser are exempt by derivation; reviewed exceptions (recovery scans, speculative re-evaluation) are printed in the evidence", DesignRef: "4 ED; 5 C07"})
 
